@@ -135,6 +135,16 @@ add("C13", "other",
     "balance) with the ordered-choice specification and with the interpreter model, inside Coq.", COMMON_NOTE,
     "specification (ordered-choice recogniser, cursor) evaluated in Coq against the real combinators/TLexer + model correspondence + law theorems")
 
+add("C06", "other",
+    "Partial. Proved in Coq about the lexer model (PropC06.v; the model is compared token for token with the Go lexer in C14's "
+    "run): one call of Next never runs out of steps and keeps the lexer well formed, so every call of a scan terminates; the state "
+    "table forces progress at end of input; spans lie inside the input; only the end state can abort and it is never fed a rune. "
+    "Parser totality is open. Decided each run by running parser.Parse + reportError + processInput and the -eval path of the "
+    "binary on hostile hand-picked inputs (nesting 10^4 / 10^5, 400-digit literals, NUL, invalid UTF-8), all strings up to length 3 "
+    "(4 thorough) over a class alphabet and thousands of random inputs, with a time limit, panic recovery and crash detection: no "
+    "hang, no abort, span inside input, report printable, nothing of a rejected input executed. K3 (Go stack limit) is a known finding.",
+    COMMON_NOTE, "Coq termination proof of the lexer model + totality testing of the real front end under time limit and crash detection")
+
 PENDING_REASON = "check under construction in this round (the technique applies; see DESIGN.md section 6); not yet claimed"
 
 
